@@ -1,3 +1,5 @@
+import Sparrow.Proofs.SourceLegClosed
+import Sparrow.Proofs.PointFactorEquiv
 import Sparrow.Proofs.SourceGlueEquiv
 import Sparrow.Proofs.LegKernelEquiv
 import Sparrow.Proofs.PointPatchLemmas
@@ -145,3 +147,43 @@ theorem initSourceEnergy_hidden_zero
   Sparrow.initSourceEnergy_hidden_zero vis pt isSS g P B W T nIn D src wall dirsIn dirsOut brdf bidx pc wp wn pp att freq s0 s1 s2 s3 s4 s5 s6 s7 s8 s9 s10 s11 s12 p d b hp hb hv
 
 end Sparrow.Props.C04.SourceGlue
+
+namespace Sparrow.Props.C04.PointFactor
+open Sparrow Sparrow.Generated.PointFactor
+
+
+theorem sphereTangentVector_eq {α : Type} [Add α] [Sub α] [Mul α] [Div α] [Neg α] [Zero α] [Cmp α] [Transc α] [NatCast α]
+    (thr : α) (v0 v1 : Nat → α) :
+    Vec3.ofFn (sphereTangentVector thr v0 v1) = sphereTangent thr (Vec3.ofFn v0) (Vec3.ofFn v1) :=
+  Sparrow.sphereTangentVector_eq thr v0 v1
+
+
+theorem polygonAreaT_eq (thr : ℝ) (pts : Nat → Nat → ℝ) (n : Nat) :
+    polygonAreaT thr pts n = polygonArea (ptsOf pts) n :=
+  Sparrow.polygonAreaT_eq thr pts n
+
+/-- **`pt_solution(point, patch, mode="source")` as translated = the model's `ptSource`** (spherical excess of the patch seen
+    from the point, divided by `4π`) -/
+theorem ptSolutionSource_eq (thr : ℝ) (x : Nat → ℝ) (pts : Nat → Nat → ℝ) (n : Nat) :
+    ptSolutionSource thr x pts n = ptSource thr (Vec3.ofFn x) (ptsOf pts) n :=
+  Sparrow.ptSolutionSource_eq thr x pts n
+
+/-- **`pt_solution(point, patch, mode="receiver")` as translated = the model's `ptReceiver`** (… divided by `π · area`) -/
+theorem ptSolutionReceiver_eq (thr : ℝ) (x : Nat → ℝ) (pts : Nat → Nat → ℝ) (n : Nat) :
+    ptSolutionReceiver thr x pts n = ptReceiver thr (Vec3.ofFn x) (ptsOf pts) n :=
+  Sparrow.ptSolutionReceiver_eq thr x pts n
+
+end Sparrow.Props.C04.PointFactor
+
+namespace Sparrow.Props.C04.Closed
+open Sparrow Sparrow.Generated.LegKernels Sparrow.Generated.PointFactor
+
+/-- source leg, all of it translated: energy of patch `j` (a quadrilateral), band `b` -/
+theorem source2patchEnergy_closed (thr : ℝ) (P B : Nat) (src : Nat → ℝ) (pc : Nat → Nat → ℝ) (pp : Nat → Nat → Nat → ℝ)
+    (vis : Nat → Bool) (att : Option (Nat → ℝ)) (s0 s1 s2 s3 s4 : Nat) (j b : Nat) (hj : j < P) :
+    (source2patchEnergyUniversal (fun p q => ptSolutionSource thr p q 4) 3 src P 3 pc s0 s1 s2 pp s3 vis s4 att B).1 j b =
+      sourceEnergy (vis j) (Vec3.norm (Vec3.sub ⟨src 0, src 1, src 2⟩ ⟨pc j 0, pc j 1, pc j 2⟩)) (att.map fun a => a b)
+        (ptSource thr (Vec3.ofFn src) (ptsOf (fun v q => pp j v q)) 4) :=
+  Sparrow.source2patchEnergy_closed thr P B src pc pp vis att s0 s1 s2 s3 s4 j b hj
+
+end Sparrow.Props.C04.Closed
